@@ -9,16 +9,20 @@
  *     thr = threaded loop, st = rfbProcessEvents driven from here; pw = 1: password list {"full","view"}
  *     (second one view-only).  Scenarios on stdin, one per line:
  *
- *   scn NAME bin|b64 HOOKVO WAIT ITEM...
+ *   scn NAME bin|b64|tcp HOOKVO WAIT ITEM...        (tcp: plain RFB connections, no WebSocket)
  *     HOOKVO 1: the application's newClientHook makes the client view-only.
  *     WAIT   eof: wait for the server to close the connection; quiet: wait until the server is quiet;
  *            cbN: wait until N callbacks have arrived.
  *     ITEM   F:HEX          one WebSocket frame with payload HEX ("-" = empty)
+ *            an ITEM may start with a connection number 1..4 (default 1): `2F:HEX`; connections
+ *            are opened when first used.   W<n> = wait until n callbacks have arrived.
+ *            X = the viewer closes its end, the probe waits until
+ *            the server has dropped the client
  *            A:KIND:HEX     one frame: the VNC auth response (KIND full|view|bad, computed from the
  *                           challenge the server sent) followed by HEX in the SAME frame
  *   output: the input callbacks in the order they arrive (`kbd c1 D K`, `ptr c1 M X Y`,
- *   `cut c1 LEN FNV`), then `= NAME eof=0|1`.  The client id is always 1 (one connection per scenario)
- *   so that the lines can be compared with Driver/C06.lean run on the equivalent script.
+ *   `cut c1 LEN FNV`, cN = connection number), then `= NAME eof=0|1` (eof of connection 1), so that the
+ *   lines can be compared with Driver/C06.lean run on the equivalent script.
  */
 #include <rfb/rfb.h>
 #include <pthread.h>
@@ -35,7 +39,7 @@ extern int __b64_pton(char const *src, unsigned char *target, size_t targsize);
 static rfbScreenInfoPtr scr;
 static int threaded, hook_vo;
 static pthread_mutex_t logmx = PTHREAD_MUTEX_INITIALIZER;
-static vh_buf cblog; static volatile int ncb, gone;
+static vh_buf cblog; static volatile int ncb;
 static char *pws[] = { (char *)"full", (char *)"view", NULL };
 
 static void logf_(const char *fmt, ...) {
@@ -43,78 +47,87 @@ static void logf_(const char *fmt, ...) {
   va_start(ap, fmt); n = vsnprintf(tmp, sizeof tmp, fmt, ap); va_end(ap);
   pthread_mutex_lock(&logmx); vh_buf_add(&cblog, tmp, (size_t)n); ncb++; pthread_mutex_unlock(&logmx);
 }
-static void cb_kbd(rfbBool down, rfbKeySym key, rfbClientPtr cl) { (void)cl; logf_("kbd c1 %u %lu\n", (unsigned)(unsigned char)down, (unsigned long)key); }
-static void cb_ptr(int mask, int x, int y, rfbClientPtr cl) { (void)cl; logf_("ptr c1 %d %d %d\n", mask, x, y); }
-static void cb_cut(char *t, int len, rfbClientPtr cl) { (void)cl; logf_("cut c1 %d %016llx\n", len, (unsigned long long)vh_fnv((unsigned char *)t, len > 0 ? (size_t)len : 0)); }
+static int idof(rfbClientPtr cl);
+static void cb_kbd(rfbBool down, rfbKeySym key, rfbClientPtr cl) { logf_("kbd c%d %u %lu\n", idof(cl), (unsigned)(unsigned char)down, (unsigned long)key); }
+static void cb_ptr(int mask, int x, int y, rfbClientPtr cl) { logf_("ptr c%d %d %d %d\n", idof(cl), mask, x, y); }
+static void cb_cut(char *t, int len, rfbClientPtr cl) { logf_("cut c%d %d %016llx\n", idof(cl), len, (unsigned long long)vh_fnv((unsigned char *)t, len > 0 ? (size_t)len : 0)); }
 static enum rfbNewClientAction new_client(rfbClientPtr cl) { if (hook_vo) cl->viewOnly = TRUE; return RFB_CLIENT_ACCEPT; }
-static void gone_hook(rfbClientPtr cl) { (void)cl; gone = 1; }
+static void gone_hook(rfbClientPtr cl);
 static void quiet_log(const char *fmt, ...) { (void)fmt; }
 
 static long now_ms(void) { struct timeval tv; gettimeofday(&tv, NULL); return tv.tv_sec * 1000L + tv.tv_usec / 1000; }
 
-/* ---- client side of the connection ---- */
-static int peer = -1, peer_eof, b64;
-static vh_buf raw, pay;          /* bytes read from the socket / decoded payload bytes */
+/* ---- client side: up to MAXP connections per scenario ---- */
+#define MAXP 4
+typedef struct { int fd, eof, used, gone; vh_buf raw, pay; rfbClientPtr cl; } pconn;
+static pconn P[MAXP];
+static int b64, tcp;              /* transport of the scenario: WebSocket binary / base64, or plain TCP */
+
+static int idof(rfbClientPtr cl) { pconn *c = (pconn *)cl->clientData; return c ? (int)(c - P) + 1 : 0; }
+static void gone_hook(rfbClientPtr cl) { pconn *c = (pconn *)cl->clientData; if (c) { c->gone = 1; c->cl = NULL; } }
 
 static void serve(void) { if (!threaded) { int i; for (i = 0; i < 4; i++) rfbProcessEvents(scr, 0); } }
 
-static void pull(void) {          /* read what is there, decode complete frames into `pay` */
+static void pull1(pconn *c) {     /* read what is there, decode complete frames into `pay` */
   unsigned char tmp[8192]; ssize_t n;
-  while (!peer_eof && (n = read(peer, tmp, sizeof tmp)) != -1) {
-    if (n == 0) { peer_eof = 1; break; }
-    vh_buf_add(&raw, tmp, (size_t)n);
+  if (!c->used || c->fd < 0) return;
+  while (!c->eof && (n = read(c->fd, tmp, sizeof tmp)) != -1) {
+    if (n == 0) { c->eof = 1; break; }
+    vh_buf_add(tcp ? &c->pay : &c->raw, tmp, (size_t)n);
   }
-  for (;;) {
+  while (!tcp) {
     size_t h = 2, l, i;
-    if (raw.n < 2) break;
-    l = raw.p[1] & 0x7f;
-    if (l == 126) { if (raw.n < 4) break; l = (size_t)raw.p[2] << 8 | raw.p[3]; h = 4; }
-    else if (l == 127) { if (raw.n < 10) break; l = 0; for (i = 2; i < 10; i++) l = l << 8 | raw.p[i]; h = 10; }
-    if (raw.n < h + l) break;
-    if ((raw.p[0] & 0x0f) == 8) peer_eof = 1;          /* close frame */
-    else if ((raw.p[0] & 0x0f) == 1) {                  /* text frame: base64 */
-      char *s = (char *)malloc(l + 1); unsigned char *o = (unsigned char *)malloc(l + 4); int k;
-      memcpy(s, raw.p + h, l); s[l] = 0;
-      k = __b64_pton(s, o, l + 4);
-      if (k > 0) vh_buf_add(&pay, o, (size_t)k);
-      free(s); free(o);
-    } else vh_buf_add(&pay, raw.p + h, l);
-    vh_buf_consume(&raw, h + l);
+    if (c->raw.n < 2) break;
+    l = c->raw.p[1] & 0x7f;
+    if (l == 126) { if (c->raw.n < 4) break; l = (size_t)c->raw.p[2] << 8 | c->raw.p[3]; h = 4; }
+    else if (l == 127) { if (c->raw.n < 10) break; l = 0; for (i = 2; i < 10; i++) l = l << 8 | c->raw.p[i]; h = 10; }
+    if (c->raw.n < h + l) break;
+    if ((c->raw.p[0] & 0x0f) == 8) c->eof = 1;          /* close frame */
+    else if ((c->raw.p[0] & 0x0f) == 1) {                /* text frame: base64 */
+      char *t = (char *)malloc(l + 1); unsigned char *o = (unsigned char *)malloc(l + 4); int k;
+      memcpy(t, c->raw.p + h, l); t[l] = 0;
+      k = __b64_pton(t, o, l + 4);
+      if (k > 0) vh_buf_add(&c->pay, o, (size_t)k);
+      free(t); free(o);
+    } else vh_buf_add(&c->pay, c->raw.p + h, l);
+    vh_buf_consume(&c->raw, h + l);
   }
 }
+static size_t pull(void) { size_t tot = 0; int i; for (i = 0; i < MAXP; i++) { pull1(&P[i]); tot += P[i].pay.n + P[i].raw.n + (size_t)P[i].eof + (size_t)P[i].gone; } return tot; }
+static void nap(void) { if (threaded) usleep(5000); }
 
-/* wait until `cond` style predicates hold; returns 0 on time-out */
-static int wait_pay(size_t want, long ms) {
+static int wait_pay(pconn *c, size_t want, long ms) {
   long t0 = now_ms();
   for (;;) {
     serve(); pull();
-    if (pay.n >= want || peer_eof) return pay.n >= want;
+    if (c->pay.n >= want || c->eof) return c->pay.n >= want;
     if (now_ms() - t0 > ms) return 0;
-    if (threaded) { struct pollfd p = { peer, POLLIN, 0 }; poll(&p, 1, 20); }
+    nap();
   }
 }
 static void wait_quiet(long quiet_ms, long max_ms) {
-  long t0 = now_ms(), last = t0; size_t seen = pay.n + raw.n; int c0 = ncb;
+  long t0 = now_ms(), last = t0; size_t seen = pull(); int c0 = ncb;
   for (;;) {
-    serve(); pull();
-    if (pay.n + raw.n != seen || ncb != c0) { seen = pay.n + raw.n; c0 = ncb; last = now_ms(); }
-    if (peer_eof || now_ms() - last > quiet_ms || now_ms() - t0 > max_ms) return;
-    if (threaded) { struct pollfd p = { peer, POLLIN, 0 }; poll(&p, 1, 20); }
-    else if (now_ms() - last > 30) return;       /* single-threaded: the server only runs inside serve() */
+    size_t cur;
+    serve(); cur = pull();
+    if (cur != seen || ncb != c0) { seen = cur; c0 = ncb; last = now_ms(); }
+    if (now_ms() - last > quiet_ms || now_ms() - t0 > max_ms) return;
+    if (threaded) nap(); else if (now_ms() - last > 30) return;   /* single-threaded: the server only runs inside serve() */
   }
 }
 
-static void send_all(const unsigned char *p, size_t n) {
+static void send_all(pconn *c, const unsigned char *p, size_t n) {
   size_t off = 0;
   while (off < n) {
-    ssize_t w = write(peer, p + off, n - off);
+    ssize_t w = write(c->fd, p + off, n - off);
     if (w < 0) { if (errno == EAGAIN || errno == EINTR) { serve(); pull(); continue; } return; }
     off += (size_t)w;
   }
 }
-static void ws_send(const unsigned char *d, size_t n) {
+static void ws_send(pconn *c, const unsigned char *d, size_t n) {
   static unsigned ctr; unsigned char *f, m[4], *src = (unsigned char *)d; size_t h = 0, i, sn = n; char *enc = NULL;
   unsigned v = ++ctr * 2654435761u;
+  if (tcp) { send_all(c, d, n); return; }
   if (b64) {
     enc = (char *)malloc(n * 2 + 8);
     sn = (size_t)__b64_ntop(d, n, enc, n * 2 + 8); src = (unsigned char *)enc;
@@ -126,8 +139,43 @@ static void ws_send(const unsigned char *d, size_t n) {
   else { f[h++] = 0x80 | 126; f[h++] = (unsigned char)(sn >> 8); f[h++] = (unsigned char)sn; }
   memcpy(f + h, m, 4); h += 4;
   for (i = 0; i < sn; i++) f[h + i] = src[i] ^ m[i & 3];
-  send_all(f, h + sn);
+  send_all(c, f, h + sn);
   free(f); free(enc);
+}
+
+/* open connection k: socketpair, (upgrade request,) rfbNewClient, client thread; returns NULL or an error word */
+static const char *open_conn(int k) {
+  pconn *c = &P[k]; int sv[2]; char req[512]; long he = -1, t0;
+  memset(c, 0, sizeof *c); c->used = 1;
+  if (socketpair(AF_UNIX, SOCK_STREAM, 0, sv) < 0) return "no-socketpair";
+  c->fd = sv[1];
+  if (tcp) { if (write(c->fd, "RFB ", 0) < 0) { } }
+  else {
+    snprintf(req, sizeof req, "GET / HTTP/1.1\r\nHost: h\r\nOrigin: o\r\nUpgrade: websocket\r\nConnection: Upgrade\r\n"
+             "Sec-WebSocket-Key: dGhlIHNhbXBsZSBub25jZQ==\r\nSec-WebSocket-Version: 13\r\nSec-WebSocket-Protocol: %s\r\n\r\n",
+             b64 ? "base64" : "binary");
+    if (write(c->fd, req, strlen(req)) < 0) return "no-write";
+  }
+  c->cl = rfbNewClient(scr, sv[0]);              /* performs the upgrade handshake (TCP: waits 100 ms for one) */
+  if (!c->cl) return "no-client";
+  c->cl->clientData = c; c->cl->clientGoneHook = gone_hook;
+  if (threaded) rfbStartOnHoldClient(c->cl);
+  fcntl(c->fd, F_SETFL, fcntl(c->fd, F_GETFL) | O_NONBLOCK);
+  if (!tcp) {                                    /* HTTP response (not framed) */
+    t0 = now_ms();
+    while (he < 0 && now_ms() - t0 < 10000) {
+      unsigned char ch; ssize_t r;
+      serve();
+      r = read(c->fd, &ch, 1);
+      if (r == 1) { vh_buf_add(&c->raw, &ch, 1); if (c->raw.n >= 4 && !memcmp(c->raw.p + c->raw.n - 4, "\r\n\r\n", 4)) he = (long)c->raw.n; }
+      else if (r == 0) break;
+      else nap();
+    }
+    if (he < 0 || !strstr((char *)c->raw.p, "101")) return "no-upgrade";
+    vh_buf_reset(&c->raw);
+  }
+  if (!wait_pay(c, 12, 10000)) return "no-version";
+  return NULL;
 }
 
 int main(int argc, char **argv) {
@@ -148,72 +196,62 @@ int main(int argc, char **argv) {
   if (threaded) rfbRunEventLoop(scr, -1, TRUE);
 
   while ((line = vh_readline())) {
-    int n = vh_split(line, tok, 64), i, sv[2], bad = 0; rfbClientPtr cl; char req[512]; const char *wait;
-    long he;
+    int n = vh_split(line, tok, 64), i, k; const char *wait, *err = NULL;
     if (n == 0 || tok[0][0] == '#') continue;
     if (strcmp(tok[0], "scn") || n < 5) { puts("bad-op"); fflush(stdout); continue; }
-    b64 = !strcmp(tok[2], "b64"); hook_vo = atoi(tok[3]); wait = tok[4];
-    vh_buf_reset(&raw); vh_buf_reset(&pay); vh_buf_reset(&cblog); ncb = 0; gone = 0; peer_eof = 0;
-    if (socketpair(AF_UNIX, SOCK_STREAM, 0, sv) < 0) return 2;
-    peer = sv[1];
-    snprintf(req, sizeof req, "GET / HTTP/1.1\r\nHost: h\r\nOrigin: o\r\nUpgrade: websocket\r\nConnection: Upgrade\r\n"
-             "Sec-WebSocket-Key: dGhlIHNhbXBsZSBub25jZQ==\r\nSec-WebSocket-Version: 13\r\nSec-WebSocket-Protocol: %s\r\n\r\n",
-             b64 ? "base64" : "binary");
-    if (write(peer, req, strlen(req)) < 0) return 2;
-    cl = rfbNewClient(scr, sv[0]);                /* performs the upgrade handshake */
-    if (!cl) { printf("= %s no-client\n", tok[1]); fflush(stdout); close(peer); continue; }
-    cl->clientGoneHook = gone_hook;
-    if (threaded) rfbStartOnHoldClient(cl);
-    fcntl(peer, F_SETFL, fcntl(peer, F_GETFL) | O_NONBLOCK);
-    /* HTTP response (not framed) */
-    { long t0 = now_ms(); he = -1;
-      while (he < 0 && now_ms() - t0 < 10000) {
-        unsigned char c; ssize_t r;
-        serve();
-        r = read(peer, &c, 1);
-        if (r == 1) { vh_buf_add(&raw, &c, 1); if (raw.n >= 4 && !memcmp(raw.p + raw.n - 4, "\r\n\r\n", 4)) he = (long)raw.n; }
-        else if (r == 0) break;
-        else if (threaded) { struct pollfd p = { peer, POLLIN, 0 }; poll(&p, 1, 20); }
+    b64 = !strcmp(tok[2], "b64"); tcp = !strcmp(tok[2], "tcp"); hook_vo = atoi(tok[3]); wait = tok[4];
+    vh_buf_reset(&cblog); ncb = 0;
+    for (k = 0; k < MAXP; k++) { free(P[k].raw.p); free(P[k].pay.p); memset(&P[k], 0, sizeof P[k]); P[k].fd = -1; }
+    for (i = 5; i < n && !err; i++) {
+      static unsigned char buf[8192]; long kk; char *it = tok[i]; pconn *c; size_t before;
+      k = 0;
+      if (it[0] >= '1' && it[0] <= '0' + MAXP) { k = it[0] - '1'; it++; }      /* connection number, default 1 */
+      if (it[0] == 'W') {                       /* W<n>: wait until n callbacks have arrived (ordering across connections) */
+        int want = atoi(it + 1); long t0 = now_ms();
+        while (ncb < want && now_ms() - t0 < 10000) { serve(); pull(); nap(); }
+        continue;
       }
-      if (he < 0 || !strstr((char *)raw.p, "101")) { printf("= %s no-upgrade\n", tok[1]); fflush(stdout); close(peer); continue; }
-      vh_buf_reset(&raw);
-    }
-    if (!wait_pay(12, 10000)) { printf("= %s no-version\n", tok[1]); fflush(stdout); close(peer); continue; }
-    for (i = 5; i < n && !bad; i++) {
-      static unsigned char buf[8192]; long k; size_t before = pay.n;
-      if (!strncmp(tok[i], "F:", 2)) {
-        k = vh_unhex(tok[i] + 2, buf, sizeof buf);
-        if (k < 0) { bad = 1; break; }
-        ws_send(buf, (size_t)k);
-      } else if (!strncmp(tok[i], "A:", 2)) {
-        char *kind = tok[i] + 2, *hex = strchr(kind, ':'); unsigned char resp[CHALLENGESIZE];
-        if (!hex || pay.n < CHALLENGESIZE) { bad = 1; break; }
+      c = &P[k];
+      if (!c->used && (err = open_conn(k))) break;
+      before = c->pay.n;
+      if (!strncmp(it, "F:", 2)) {
+        kk = vh_unhex(it + 2, buf, sizeof buf);
+        if (kk < 0) { err = "bad-scenario"; break; }
+        ws_send(c, buf, (size_t)kk);
+      } else if (!strncmp(it, "A:", 2)) {
+        char *kind = it + 2, *hex = strchr(kind, ':'); unsigned char resp[CHALLENGESIZE];
+        if (!hex || c->pay.n < CHALLENGESIZE) { err = "bad-scenario"; break; }
         *hex++ = 0;
-        memcpy(resp, pay.p + pay.n - CHALLENGESIZE, CHALLENGESIZE);      /* the challenge is the last thing sent */
+        memcpy(resp, c->pay.p + c->pay.n - CHALLENGESIZE, CHALLENGESIZE);      /* the challenge is the last thing sent */
         if (!strcmp(kind, "full")) rfbEncryptBytes(resp, pws[0]);
         else if (!strcmp(kind, "view")) rfbEncryptBytes(resp, pws[1]);
         else memset(resp, 0x55, sizeof resp);
         memcpy(buf, resp, CHALLENGESIZE);
-        k = vh_unhex(hex, buf + CHALLENGESIZE, sizeof buf - CHALLENGESIZE);
-        if (k < 0) { bad = 1; break; }
-        ws_send(buf, CHALLENGESIZE + (size_t)k);
-      } else { bad = 1; break; }
-      if (i + 1 < n) {                       /* between frames: let the server answer */
-        if (i + 1 < n && !strncmp(tok[i + 1], "A:", 2)) { if (!wait_pay(before + CHALLENGESIZE, 10000)) { /* challenge did not come */ } }
-        wait_quiet(threaded ? 150 : 30, 10000);
+        kk = vh_unhex(hex, buf + CHALLENGESIZE, sizeof buf - CHALLENGESIZE);
+        if (kk < 0) { err = "bad-scenario"; break; }
+        ws_send(c, buf, CHALLENGESIZE + (size_t)kk);
+      } else if (!strcmp(it, "X")) {             /* the viewer goes away; wait until the server has noticed */
+        long t0 = now_ms();
+        close(c->fd); c->fd = -1; c->eof = 1;
+        while (!c->gone && now_ms() - t0 < 10000) { serve(); nap(); }
+      } else { err = "bad-scenario"; break; }
+      if (i + 1 < n) {                           /* between items: let the server answer */
+        char *nx = tok[i + 1]; if (nx[0] >= '1' && nx[0] <= '0' + MAXP) nx++;
+        if (!strncmp(nx, "A:", 2) && c->fd >= 0) wait_pay(c, before + CHALLENGESIZE, 10000);
+        wait_quiet(threaded ? 80 : 30, 10000);
       }
     }
-    if (bad) { printf("= %s bad-scenario\n", tok[1]); fflush(stdout); close(peer); continue; }
-    if (!strcmp(wait, "eof")) { long t0 = now_ms(); while (!peer_eof && now_ms() - t0 < 10000) wait_quiet(50, 200); wait_quiet(100, 300); }
-    else if (!strncmp(wait, "cb", 2)) { int want = atoi(wait + 2); long t0 = now_ms(); while (ncb < want && !peer_eof && now_ms() - t0 < 10000) wait_quiet(50, 200); wait_quiet(150, 400); }
+    if (err) { printf("= %s %s\n", tok[1], err); fflush(stdout); for (k = 0; k < MAXP; k++) if (P[k].fd >= 0) close(P[k].fd); continue; }
+    if (!strcmp(wait, "eof")) { long t0 = now_ms(); while (!P[0].eof && now_ms() - t0 < 10000) wait_quiet(50, 200); wait_quiet(100, 300); }
+    else if (!strncmp(wait, "cb", 2)) { int want = atoi(wait + 2); long t0 = now_ms(); while (ncb < want && now_ms() - t0 < 10000) wait_quiet(50, 200); wait_quiet(150, 400); }
     else wait_quiet(threaded ? 600 : 60, 10000);
     pthread_mutex_lock(&logmx);
     if (cblog.n) fwrite(cblog.p, 1, cblog.n, stdout);
     pthread_mutex_unlock(&logmx);
-    printf("= %s eof=%d\n", tok[1], peer_eof);
+    printf("= %s eof=%d\n", tok[1], P[0].eof);
     fflush(stdout);
-    close(peer); peer = -1;
-    { long t0 = now_ms(); while (!gone && now_ms() - t0 < 3000) { serve(); if (threaded) usleep(10000); } }
+    for (k = 0; k < MAXP; k++) if (P[k].fd >= 0) { close(P[k].fd); P[k].fd = -1; }
+    { long t0 = now_ms(); int all = 0; while (!all && now_ms() - t0 < 3000) { serve(); all = 1; for (k = 0; k < MAXP; k++) if (P[k].used && P[k].cl && !P[k].gone) all = 0; nap(); } }
   }
   fflush(stdout);
   _exit(0);        /* no teardown of the threaded server: that is C13's subject */
